@@ -1,6 +1,7 @@
 (* C13 -- string.format, part 2: the two loops of string_format against the
    specification's parse-then-evaluate, the fuel bound, absence of panics,
-   and the refutation of the unguarded statement (Go's `decimal` wraps). *)
+   and absence of panics.  (The refutation for the code before commit 5574fcc,
+   whose `decimal` wrapped, is in History.v.) *)
 From Coq Require Import ZArith NArith List Bool Lia ZifyBool ZifyNat ZifyN.
 From SV Require Import Common.GoInt C13.Base C13.FormatBase C13.Format C13.FormatSpec C13.ProofsFormat.
 Import ListNotations.
@@ -24,12 +25,6 @@ Proof.
   now rewrite IH, app_assoc.
 Qed.
 
-Lemma fits_lits lits X :
-  all_lit lits = true -> forallb seg_number_fits (lits ++ X) = forallb seg_number_fits X.
-Proof.
-  induction lits as [|[s| | |] l IH]; cbn [all_lit forallb is_lit app andb]; intro H; try discriminate; auto.
-Qed.
-
 (* the slice / index lemmas in the form used below: s is known as a concatenation *)
 Lemma rw_sl_to_app {s a b} : s = a ++ b -> sl_to s (flen a) = Some a.
 Proof. intros ->. apply sl_to_app. Qed.
@@ -47,6 +42,7 @@ Section Loops.
   Variables str_of repr_of : V -> fbytes.
   Variable args : list V.
   Variable kwargs : list (fbytes * V).
+  Hypothesis Hargs : Z.of_nat (length args) <= max_int64.   (* len(args) is a Go int *)
 
   Local Notation prepend := (prepend).
   Local Notation eval := (eval V str_of repr_of).
@@ -161,11 +157,11 @@ Section Loops.
   Lemma format_loop_spec : forall n format, (length format <= n)%nat ->
     forall fuel st m buf,
       (length format < fuel)%nat -> Rst st m ->
-      is_bytes format = true -> forallb seg_number_fits (parse format) = true ->
+      is_bytes format = true ->
       format_loop V str_of repr_of fuel args kwargs format st buf =
       prepend buf (eval (parse format) args kwargs m).
   Proof.
-    induction n as [|n IH]; intros format Hlen fuel st m buf Hfuel HR Hbytes Hfit.
+    induction n as [|n IH]; intros format Hlen fuel st m buf Hfuel HR Hbytes.
     - destruct format; [|cbn in Hlen; lia]. destruct fuel; [lia|].
       cbn. now rewrite app_nil_r.
     - destruct fuel as [|fuel']; [lia|]. cbn [format_loop].
@@ -189,7 +185,7 @@ Section Loops.
           as (lits & A & [[R S]|[R S]]); rewrite R.
         2:{ rewrite Hparse, S, eval_lits by assumption. reflexivity. }
         replace (flen lit <? 0) with false by lia.
-        rewrite Hparse, S in Hfit |- *. rewrite fits_lits in Hfit by assumption.
+        rewrite Hparse, S.
         rewrite eval_lits by assumption. rewrite <- prepend_app.
         rewrite E in Hbytes. rewrite is_bytes_app in Hbytes. apply andb_true_iff in Hbytes as [Hb_lit Hb_rest].
         change (is_bytes (ch_open :: rest)) with (is_bytes rest) in Hb_rest.
@@ -204,20 +200,20 @@ Section Loops.
           destruct (N.eqb_spec c ch_open) as [->|Nc].
           -- (* "{{" *)
              rewrite (rw_sl_from_app2 E).
-             change (split_braces (ch_open :: rest')) with (POpen :: split_braces rest') in Hfit |- *.
-             cbn [segments] in Hfit |- *. cbn [forallb seg_number_fits andb] in Hfit.
+             change (split_braces (ch_open :: rest')) with (POpen :: split_braces rest').
+             cbn [segments].
              cbn [FormatSpec.eval]. rewrite <- prepend_app.
              assert (Hlen' : (length rest' <= n)%nat).
              { rewrite E, app_length in Hlen. cbn [length] in Hlen. lia. }
              assert (Hfuel' : (length rest' < fuel')%nat).
              { rewrite E, app_length in Hfuel. cbn [length] in Hfuel. lia. }
-             rewrite (IH rest' Hlen' fuel' st m _ Hfuel' HR); [|exact Hb_rest|exact Hfit].
+             rewrite (IH rest' Hlen' fuel' st m _ Hfuel' HR Hb_rest).
              rewrite <- app_assoc. reflexivity.
           -- (* a replacement field *)
              rewrite (rw_sl_from_app1 E).
-             rewrite <- (app_nil_r (split_braces (c :: rest'))) in Hfit |- *.
-             rewrite (not_open_head c rest' Nc []) in Hfit |- *.
-             rewrite app_nil_r in Hfit |- *.
+             rewrite <- (app_nil_r (split_braces (c :: rest'))).
+             rewrite (not_open_head c rest' Nc []).
+             rewrite app_nil_r.
              destruct (index_byte_cases (c :: rest') ch_close) as [[Ncl I2]|(field & after & E2 & Ncl & I2)]; rewrite I2.
              ++ (* unmatched '{' *)
                 replace (-1 <? 0) with true by lia.
@@ -229,15 +225,13 @@ Section Loops.
                   change (split_braces (ch_close :: after)) with (PClose :: split_braces after).
                   rewrite in_field_collect by (now apply split_braces_no_close).
                   now rewrite split_braces_render. }
-                rewrite Hin in Hfit |- *.
+                rewrite Hin.
                 destruct (split_field_spec field) as (name & conv & spec & tail & Hsf & Hfo & Hnt).
-                rewrite Hsf, Hfo in *.
-                cbn [forallb] in Hfit. apply andb_true_iff in Hfit as [Hfit1 Hfit2].
+                rewrite Hsf, Hfo.
                 rewrite E2, is_bytes_app in Hb_rest. apply andb_true_iff in Hb_rest as [Hb_field Hb_after].
                 change (is_bytes (ch_close :: after)) with (is_bytes after) in Hb_after.
                 rewrite Hnt, is_bytes_app in Hb_field. apply andb_true_iff in Hb_field as [Hb_name _].
-                assert (Hfit1' : seg_number_fits (Field (selector_of name) [] []) = true) by exact Hfit1.
-                pose proof (select_arg_spec V name args kwargs st m HR Hb_name Hfit1') as Hsel.
+                pose proof (select_arg_spec V name args kwargs st m HR Hb_name Hargs) as Hsel.
                 cbn [FormatSpec.eval].
                 destruct (select_arg V name args kwargs st) as [arg st'|e|];
                   destruct (resolve V (selector_of name) args kwargs m) as [[v m']|e']; try contradiction.
@@ -251,10 +245,10 @@ Section Loops.
                      rewrite E, app_length in Hfuel. rewrite app_length in H. cbn [length] in *. lia. }
                    unfold convert.
                    destruct (bytes_eqb conv [ch_s]).
-                   { rewrite (IH after Hlen' fuel' st' m' _ Hfuel' HR' Hb_after Hfit2).
+                   { rewrite (IH after Hlen' fuel' st' m' _ Hfuel' HR' Hb_after).
                      rewrite <- !prepend_app, <- app_assoc. reflexivity. }
                    destruct (bytes_eqb conv [ch_r]).
-                   { rewrite (IH after Hlen' fuel' st' m' _ Hfuel' HR' Hb_after Hfit2).
+                   { rewrite (IH after Hlen' fuel' st' m' _ Hfuel' HR' Hb_after).
                      rewrite <- !prepend_app, <- app_assoc. reflexivity. }
                    reflexivity.
                 ** subst e'. reflexivity.
@@ -262,23 +256,23 @@ Section Loops.
 End Loops.
 
 (* ------------------------------------------------------------- theorems *)
-Lemma format_correct_partial_lemma :
+Lemma format_correct_lemma :
   forall (V : Type) (str_of repr_of : V -> fbytes)
          (template : fbytes) (args : list V) (kwargs : list (fbytes * V)),
     is_bytes template = true ->
-    numbers_fit template = true ->
+    Z.of_nat (length args) <= max_int64 ->
     string_format V str_of repr_of template args kwargs =
     format_spec V str_of repr_of template args kwargs.
 Proof.
   intros V str_of repr_of template args kwargs Hb Hn.
   unfold string_format, format_spec.
-  rewrite (format_loop_spec V str_of repr_of args kwargs (length template) template (le_n _)
-                            (S (length template)) fstate0 Unused [] (Nat.lt_succ_diag_r _) eq_refl Hb Hn).
+  rewrite (format_loop_spec V str_of repr_of args kwargs Hn (length template) template (le_n _)
+                            (S (length template)) fstate0 Unused [] (Nat.lt_succ_diag_r _) eq_refl Hb).
   apply prepend_nil.
 Qed.
 
-(* the specification never panics nor runs out of fuel, hence (under the
-   guards) neither does the model with the fuel string_format gives it *)
+(* the specification never panics nor runs out of fuel, hence neither does
+   the model with the fuel string_format gives it *)
 Lemma prepend_total s r : (r <> FPanic /\ r <> FOutOfFuel) -> (prepend s r <> FPanic /\ prepend s r <> FOutOfFuel).
 Proof. destruct r; cbn; intros [H1 H2]; split; congruence. Qed.
 
@@ -298,26 +292,9 @@ Lemma format_no_panic_lemma :
   forall (V : Type) (str_of repr_of : V -> fbytes)
          (template : fbytes) (args : list V) (kwargs : list (fbytes * V)),
     is_bytes template = true ->
-    numbers_fit template = true ->
+    Z.of_nat (length args) <= max_int64 ->
     string_format V str_of repr_of template args kwargs <> FPanic /\
     string_format V str_of repr_of template args kwargs <> FOutOfFuel.
 Proof.
-  intros. rewrite format_correct_partial_lemma by assumption. apply eval_total.
-Qed.
-
-(* The unguarded statement is false for the code as it is: Go's `decimal`
-   accumulates the field number in an int and only rejects a negative
-   intermediate value, so a number that wraps past 2^64 to a small value is
-   accepted as that index: "{18446744073709551616}".format("a") is "a",
-   where the specification (index 2^64 >= 1 argument) fails. *)
-Definition wrap_witness : fbytes :=
-  [123; 49; 56; 52; 52; 54; 55; 52; 52; 48; 55; 51; 55; 48; 57; 53; 53; 49; 54; 49; 54; 125]%N.
-
-Lemma format_correct_refuted_lemma :
-  exists (template : fbytes) (args : list fbytes) (kwargs : list (fbytes * fbytes)),
-    is_bytes template = true /\
-    string_format fbytes (fun v => v) (fun v => v) template args kwargs = FOk [97%N] /\
-    format_spec fbytes (fun v => v) (fun v => v) template args kwargs = FErr EIndexRange.
-Proof.
-  exists wrap_witness, [[97%N]], []. vm_compute. repeat split.
+  intros. rewrite format_correct_lemma by assumption. apply eval_total.
 Qed.
